@@ -31,6 +31,7 @@ var corpusScenarios = []corpusScenario{
 	{"dec-sign-holes", false, corpusDecSignHoles},
 	{"fee-rate-zero-and-one", false, corpusFeeRateZeroAndOne},
 	{"epoch-and-equal-dates", false, corpusEpochAndEqualDates},
+	{"update-same-order-twice", false, corpusUpdateSameOrderTwice},
 }
 
 func init() { QuickCounts["corpus"] = len(corpusScenarios) }
@@ -300,5 +301,36 @@ func corpusEpochAndEqualDates(c Cfg) *Result {
 	g.mkBatch(0, pid, day, day, true, nil, "start == end date", g.iss(0, "500", ""))
 	g.Commit()
 	g.GenesisRT("batch with start == end (known finding batch-dates-equal)")
+	return g.Finish()
+}
+
+// ---- update-same-order-twice (C06) ----------------------------------------------------------------------
+
+func corpusUpdateSameOrderTwice(c Cfg) *Result {
+	g := NewG(c, chain.Options{GenesisTime: T0})
+	a := g.App
+	g.Begin(g.now.Add(6 * time.Second))
+	_, _, denom := g.corpusWorld()
+	upd := func(id uint64, q string, e *time.Time) *marketUpdate {
+		return &marketUpdate{SellOrderId: id, NewQuantity: q, NewAskPrice: coin("stake", 1000), DisableAutoRetire: true, NewExpiration: e}
+	}
+	ok := func(text string) string { return expectNote(true, "C06", "update-same-order-twice-rejected", text) }
+	g.Do(a.MsgSell(0, chain.SellOrder(denom, "10", coin("stake", 1000), true, nil)), "sell 10, no expiration")
+	id1 := g.Rec.State().Sequences["SellOrder"]
+	g.Do(a.MsgUpdateSellOrders(0, upd(id1, "4", nil), upd(id1, "6", nil)), ok("the same order twice in one message: 10 -> 4 -> 6 (escrow must end at 6)"))
+	g.Do(a.MsgCancelSellOrder(0, id1), expectNote(true, "C06", "cancel-after-double-update-failed", "cancel: 6 credits return to tradable"))
+	exp := g.now.Add(time.Hour)
+	g.Do(a.MsgSell(0, chain.SellOrder(denom, "10", coin("stake", 1000), true, &exp)), "sell 10, expiring in one hour")
+	id2 := g.Rec.State().Sequences["SellOrder"]
+	g.Do(a.MsgUpdateSellOrders(0, upd(id2, "12", nil), upd(id2, "15", nil)), ok("the same order twice in one message: 10 -> 12 -> 15 (escrow must end at 15)"))
+	g.Do(a.MsgSell(0, chain.SellOrder(denom, "20", coin("stake", 500), true, nil)), "a third order")
+	id3 := g.Rec.State().Sequences["SellOrder"]
+	later := g.now.Add(90 * time.Minute)
+	g.Do(a.MsgUpdateSellOrders(0, upd(id3, "5", nil), upd(id2, "15.5", nil), upd(id3, "25", &later), upd(id3, "8", nil)),
+		ok("interleaved: order A down, order B up, A up with expiration, A down (A ends at 8, B at 15.5)"))
+	g.Commit()
+	g.Begin(g.now.Add(2 * time.Hour)) // both orders with an expiration are pruned: 15.5 + 8 return to tradable
+	g.Do(a.MsgSendCredits(0, 1, denom, "1", "", "", ""), "an ordinary send after the expiry")
+	g.Commit()
 	return g.Finish()
 }
